@@ -1074,6 +1074,28 @@ func runCase(ctx context.Context, out *vc.Out, caseID int, seed uint64, tier str
 				w.run(&query{filter: fl, sel: "docs"})
 			}
 		}
+		// composite indexes: the leading field pinned, every comparison on a following field with a null and a
+		// non-null operand (the following fields are decided by value matchers, not by the key range)
+		if withTwin {
+			for _, sp := range specs {
+				for j := 1; j < len(sp.fields); j++ {
+					f1, f2 := sp.fields[0].f, sp.fields[j].f
+					if f1 == f2 {
+						continue
+					}
+					ops := []string{"eq", "ne"}
+					if fieldKinds[f2] == "i" || fieldKinds[f2] == "f" {
+						ops = append(ops, "gt", "ge", "lt", "le")
+					}
+					for _, op := range ops {
+						for _, nullChance := range []int{10, 0} {
+							lead := &filt{op: "eq", f: f1, v: genVal(r, f1, 1)}
+							w.run(&query{filter: &filt{op: "and", a: lead, b: &filt{op: op, f: f2, v: genVal(r, f2, nullChance)}}, sel: "docs"})
+						}
+					}
+				}
+			}
+		}
 		// several aggregates over one group in one request
 		for i := 0; i < 3 && !w.extreme; i++ {
 			a := []int64{-5, 0, 1, 2}[r.Intn(4)]
